@@ -219,6 +219,9 @@ def regenerate(ctx):
     ctx.note("normalize() passes base %s to mpq_set_str: model variant string_to_rational_b %s (%s)" %
              (m.group(1), m.group(1), "octal/hex prefixes honoured: fraction_value_refuted applies" if m.group(1) == "0"
               else "decimal only: fraction_value_fixed applies"))
+    ic = re.search(r"int_const_canonical : bool := (\w+)", open(os.path.join(vlib.COQ, "Num", "Gen_Normalize.v")).read())
+    ctx.note("mkConst(sort_INT, name) names the constant by %s: %s applies" %
+             (("the canonical spelling", "int_const_identity_fixed") if ic and ic.group(1) == "true" else ("the raw text", "int_const_identity_refuted")))
     return True
 
 
